@@ -62,7 +62,7 @@ class Gen:
 
     def cell(self):
         return self.r.choice(["a", "b ", "", "  ", "\\|", "\\\\", "\\n", "x\\ny", "é😀", "<h1>", "\\", "a\\", "\\x", "c\\|d", " \\n", "\\n ",
-                              "a \\n", "\u00a0", "x\u3000", "\\\\n", "<h2>", "𝔘𝔘", "\t"])
+                              "a \\n", "\u00a0", "x\u3000", "\\\\n", "<h2>", "𝔘𝔘", "\t", "\u200bz\u200b", "\ufeffy", "\u2060"])
 
     def table(self, ncols=None, nrows=None):
         ncols = ncols or self.r.randint(1, 3)
